@@ -523,6 +523,15 @@ def _fresh_group(self):
 G.fresh_group = _fresh_group
 
 
+def _flip_flagged(self):
+    """alternates between the two ways of obtaining flagged containers (deterministic)"""
+    self._ff = not getattr(self, "_ff", False)
+    return self._ff
+
+
+G.flip_flagged = _flip_flagged
+
+
 @suite("agg")
 def _agg(g, scale):
     ngroups = int(40 * scale)
@@ -624,6 +633,36 @@ def _agg(g, scale):
             y = g.fresh("qy")
             g.emit(("%s %s %s qb qa qc" % (fn, y, "" if w is None else str(w))).replace("  ", " "))
             g.emit("aggindep %s qb res qa qc qa2" % y)
+    # five operands over a WIDE key range (so that a worker's share holds several keys); a key that is missing from the earlier
+    # operands but lies BETWEEN their keys first appears in a later, flagged operand (clone under copy-on-write / zero-copy view)
+    # as a bitmap / array / run chunk, and still later operands have the same key
+    g.emit("# group agg fixed-flagged-interior-key")
+    K = 11 << 16
+    g.emit("of ra 5 %d %d %d" % ((10 << 16) + 1, (12 << 16) + 1, (60000 << 16) + 1))
+    g.emit("of rb %d %d" % ((12 << 16) + 2, (13 << 16) + 2))
+    g.emit("of rd %d %d" % (K + 1, K + 4))
+    g.emit("of re %d %d %d" % (K + 2, K + 65535, (59999 << 16) + 5))
+    for shape in ("bitmap", "array", "run"):
+        c0 = g.fresh("rc")
+        g.emit("new %s" % c0)
+        if shape == "bitmap":
+            g.emit("addstride %s %d 3 5000" % (c0, K))
+        elif shape == "array":
+            g.emit("addstride %s %d 3 50" % (c0, K))
+        else:
+            g.emit("addr %s %d %d" % (c0, K + 300, K + 900))
+            g.emit("opt %s" % c0)
+        g.emit("addmany %s 7 %d" % (c0, (60000 << 16) + 3))
+        cc, cv = g.fresh("rc"), g.fresh("rc")
+        g.emit("cowclone %s %s" % (cc, c0))
+        g.emit("rd %s frombuffer %s" % (cv, c0))
+        for flagged in (cc, cv):
+            for fn in PAR + ["fastor", "heapor", "heapxor"]:
+                for w in ([1, 2, 3, 0] if fn in PAR else [None]):
+                    y = g.fresh("ry")
+                    g.emit(("%s %s %s ra rb %s rd re" % (fn, y, "" if w is None else str(w), flagged)).replace("  ", " "))
+                    g.emit("aggindep %s %s res ra rb rd re %s" % (y, flagged, c0))
+        g.count("agg:flagged-interior-" + shape)
     # lists whose other members are all empty (fresh, or filled and emptied): the result is a bitmap of its own
     g.emit("# group agg fixed-empties-indep")
     g.emit("new fe2")
@@ -724,6 +763,27 @@ def sched_group(g, shape, scale):
         pool_ = [k for k in pool_ if k >= lo]
         for i in range(r.randint(2, 4)):
             mk(sorted(set(r.sample(pool_, r.randint(3, len(pool_))) + [65535])), cow=r.randrange(2))
+    elif shape.startswith("flaggedinterior"):
+        # five operands over a wide key range; key 11 first appears in the THIRD operand (flagged: clone under copy-on-write, or a
+        # zero-copy view) between keys the earlier operands have, as a bitmap / array / run chunk; later operands have key 11 too
+        def lit(spec):
+            x = g.fresh(tag)
+            g.emit("mkrepr %s %s" % (x, spec))
+            return x
+        kind = shape.split(":")[1] if ":" in shape else r.choice(["B", "B", "A", "R"])
+        c11 = {"B": "B:32768:5555555555555555*1024", "A": "A:3,6,9,300", "R": "R:300+600"}[kind]
+        a_ = lit("cow=0;0:A:5;10:A:1;12:A:1;60000:A:1")
+        b_ = lit("cow=0;12:A:2;13:A:2")
+        c0 = lit("cow=1;11:%s;60000:A:3" % c11)
+        d_ = lit("cow=0;11:A:1,4")
+        e_ = lit("cow=0;11:A:2,65535;59999:A:5")
+        c_ = g.fresh(tag)
+        if g.flip_flagged():
+            g.emit("clone %s %s" % (c_, c0))          # c0 has copy-on-write switched on: both sides share flagged containers
+        else:
+            g.emit("rd %s frombuffer %s" % (c_, c0))
+        names.extend([a_, b_, c_, d_, e_])
+        g.count("sched:flaggedinterior:" + kind)
     else:  # mixed
         nb = r.randint(2, 6)
         sp = r.choice([2, 9, 70, 300])
@@ -735,6 +795,8 @@ def sched_group(g, shape, scale):
     combos = [(p, w) for p in (1, 2, 4, 16) for w in (0, 1, 2, 3, 8, 64)]
     if shape == "widetop":
         combos = [(p, w) for p in (1, 4) for w in (1, 2, 3, 4, 5, 6, 7, 8, 12, 16, 33)]
+    if shape.startswith("flaggedinterior"):
+        combos = [(p, w) for p in (1, 4) for w in (0, 1, 2, 3, 8, 64)]
     for fn in PAR:
         # half of the GOMAXPROCS x workers grid per (group, function) at scale 1, the full grid from scale 2
         sel = combos if scale >= 2 else r.sample(combos, max(4, int(len(combos) * scale / 2)))
@@ -773,7 +835,8 @@ def sched_group(g, shape, scale):
 
 @suite("sched")
 def _sched(g, scale):
-    shapes = ["emptylist", "allempty", "single", "disjoint", "common", "common", "dups", "mixed", "commonwide", "widetop"]
+    shapes = ["emptylist", "allempty", "single", "disjoint", "common", "common", "dups", "mixed", "commonwide", "widetop",
+              "flaggedinterior:B", "flaggedinterior:B", "flaggedinterior"]
     for sh in shapes:
         sched_group(g, sh, scale)
     for _ in range(int(2 * scale)):
